@@ -5,6 +5,8 @@ from . import attackrules, c15
 def run(ctx):
     facts = ctx.facts("dev")
     ctx.decided += [
+        "T2/T3 (shared with C15) the sliding lookups the queries use are exact: every subset of every magic mask indexes the true "
+        "sliding attack, and attack::rook/bishop are the lookup formula over their own tables",
         "Q0 king/knight/pawn attack tables of this build equal their geometric definition (shared with C15/T1); sliders are C15",
         "Q1-Q3 do_is_cell_attacked, do_cell_attackers (both colours) and Checker::is_attacked (both attacker colours) each reduce to exactly "
         "the five reference terms: piece set of the attacking colour x attack set at the square, the pawn table of the opposite colour, "
@@ -17,6 +19,8 @@ def run(ctx):
                         "recorded as an assumption); occupancy-set correctness of the board itself is C05"]
     ctx.assume("reverse-lookup lemma: a man of kind k on square x attacks s iff x is in attack_k(s) (for pawns with the colour inverted)")
     c15.t1(ctx, facts, "Q0")
+    c15.t2(ctx, facts)
+    c15.t3(ctx, facts)
     attackrules.sibling_rules(ctx, facts, "Q1")
     attackrules.dispatch_rules(ctx, facts, "Q4")
     attackrules.pinned_rule(ctx, facts, "Q5")
